@@ -93,6 +93,10 @@ pub enum Op {
     Last { slot: usize },
     Size { slot: usize },
     Collect { slot: usize },
+    /// direct use of the node-level API on a live treap: descend `depth` links from the public
+    /// root following the bits of `path` (0 = left) without pushing, then what 0 = node.push(),
+    /// 1 = node.push(); node.update(), 2 = collect_into on the root (depth ignored)
+    NodePoke { slot: usize, path: u32, depth: u8, what: u8 },
 }
 
 impl Op {
@@ -112,6 +116,7 @@ impl Op {
             Op::Last { .. } => "last",
             Op::Size { .. } => "size",
             Op::Collect { .. } => "collect",
+            Op::NodePoke { .. } => "node_poke",
         }
     }
     pub fn to_json(&self) -> Json {
@@ -130,6 +135,7 @@ impl Op {
             Op::RangeModify { slot, l, r, a, b } => o.with("slot", Json::u(*slot)).with("l", Json::u(*l)).with("r", Json::u(*r)).with("a", Json::n(*a)).with("b", Json::n(*b)),
             Op::RangeAgg { slot, l, r } => o.with("slot", Json::u(*slot)).with("l", Json::u(*l)).with("r", Json::u(*r)),
             Op::First { slot } | Op::Last { slot } | Op::Size { slot } | Op::Collect { slot } => o.with("slot", Json::u(*slot)),
+            Op::NodePoke { slot, path, depth, what } => o.with("slot", Json::u(*slot)).with("path", Json::n(*path)).with("depth", Json::n(*depth)).with("what", Json::n(*what)),
         }
     }
     pub fn from_json(j: &Json) -> Option<Op> {
@@ -151,6 +157,7 @@ impl Op {
             "last" => Op::Last { slot: u("slot")? },
             "size" => Op::Size { slot: u("slot")? },
             "collect" => Op::Collect { slot: u("slot")? },
+            "node_poke" => Op::NodePoke { slot: u("slot")?, path: v("path")? as u32, depth: v("depth")? as u8, what: v("what")? as u8 },
             _ => return None,
         })
     }
@@ -368,6 +375,9 @@ pub const PROBES: &[&str] = &[
     "rotation_split_swap",
     "remove_at_checked",
     "removed_item_reinserted",
+    "node_level_collect_into",
+    "node_level_push_on_live_node",
+    "nonidentity_push_in_node_poke",
     "aggregate_of_split_out_part_checked",
     "three_or_more_live_treaps",
 ];
@@ -693,6 +703,42 @@ fn apply(pool: &mut Pool, op: &Op, st: &mut ExecStats) -> Result<(), (&'static s
             if got != pool.model[s] {
                 return Err(("collect", format!("collect() returned {:?} but the sequence is {:?}", got, pool.model[s])));
             }
+        }
+        Op::NodePoke { slot, path, depth, what } => {
+            let s = slot % POOL;
+            if *what % 3 == 2 {
+                if let Some(root) = pool.treaps[s].root.as_deref_mut() {
+                    let mut out: Vec<&It> = Vec::new();
+                    root.collect_into(&mut out);
+                    let got: Vec<(u32, u64)> = out.into_iter().map(|i| (i.uid, i.x)).collect();
+                    hit(st, "node_level_collect_into");
+                    if got != pool.model[s] {
+                        return Err(("collect", format!("TreapNode::collect_into on the root returned {:?} but the sequence is {:?}", got, pool.model[s])));
+                    }
+                }
+            } else {
+                let mut node = pool.treaps[s].root.as_deref_mut();
+                for d in 0..*depth {
+                    let n = match node {
+                        Some(n) => n,
+                        None => break,
+                    };
+                    let child = if (path >> d) & 1 == 0 { n.left.is_some() } else { n.right.is_some() };
+                    if !child {
+                        node = Some(n);
+                        break;
+                    }
+                    node = if (path >> d) & 1 == 0 { n.left.as_deref_mut() } else { n.right.as_deref_mut() };
+                }
+                if let Some(n) = node {
+                    n.push();
+                    if *what % 3 == 1 {
+                        n.update();
+                    }
+                    hit(st, "node_level_push_on_live_node");
+                }
+            }
+            push_probe = "nonidentity_push_in_node_poke";
         }
     }
     if !push_probe.is_empty() && nonid() > before {
